@@ -731,4 +731,162 @@ theorem walk_head (d : List (Int × Nat)) (ff : Nat → Option SMatch) (ms : Lis
   | stop _ hn => simpa using hn (Nat.zero_le _)
   | step _ m rest hle hff _ => simpa using hff 0 (Nat.le_refl _) (Nat.zero_le _)
 
+/-! ### closed forms of the single-match methods -/
+
+theorem head_valid (a : Ans) (n : Nat) (hv : ∀ m ∈ a.ms, m.Valid n) (m : RMatch) (h : a.ms.head? = some m) : m.Valid n := by
+  cases hms : a.ms with
+  | nil => rw [hms] at h; simp at h
+  | cons m0 rest => rw [hms] at h; simp at h; subst h; exact hv m0 (by simp [hms])
+
+theorem FindStringIndex_closed (a : Ans) (segs : List (Int × List Nat)) (hwf : WF (decoded segs))
+    (he : a.err = false) (hv : ∀ m ∈ a.ms, m.Valid segs.length) :
+    FindStringIndex a segs = .ok (a.ms.head?.map (spanB (decoded segs))) := by
+  unfold FindStringIndex
+  rw [findFirst_eq a he, bind_ok]
+  cases hh : a.ms.head? with
+  | none => rfl
+  | some m =>
+    have := (head_valid a _ hv m hh).1
+    simp only [Option.map_some]
+    rw [captureIndex_eq _ hwf (m.index, m.len) (by rw [decoded_length]; exact this)]
+    rfl
+
+theorem FindString_closed (a : Ans) (segs : List (Int × List Nat)) (hwf : WF (decoded segs))
+    (he : a.err = false) (hv : ∀ m ∈ a.ms, m.Valid segs.length) :
+    FindString a segs = .ok (match a.ms.head? with
+      | none => []
+      | some m => Std.textS (bytesOf segs) (off (decoded segs) m.index) (off (decoded segs) (m.index + m.len))) := by
+  unfold FindString
+  rw [findFirst_eq a he, bind_ok]
+  cases hh : a.ms.head? with
+  | none => rfl
+  | some m => exact captureString_eq segs hwf (m.index, m.len) (head_valid a _ hv m hh).1
+
+theorem Find_closed (a : Ans) (b : Option (List (Int × List Nat))) (hwf : WF (decoded (segsOf b)))
+    (he : a.err = false) (hv : ∀ m ∈ a.ms, m.Valid (segsOf b).length) :
+    Find a b = .ok (match a.ms.head? with
+      | none => none
+      | some m => Std.textB (bytesOfB b) (off (decoded (segsOf b)) m.index) (off (decoded (segsOf b)) (m.index + m.len))) := by
+  unfold Find FindIndex
+  rw [FindStringIndex_closed a _ hwf he hv, bind_ok]
+  cases hh : a.ms.head? with
+  | none => rfl
+  | some m =>
+    obtain ⟨h1, h2⟩ := span_in_bytes b m.index m.len
+    simp only [Option.map_some, spanB]
+    exact sliceBytes_eq _ _ _ h1 h2
+
+theorem FindStringSubmatchIndex_closed (a : Ans) (segs : List (Int × List Nat)) (hwf : WF (decoded segs))
+    (he : a.err = false) (hv : ∀ m ∈ a.ms, m.Valid segs.length) :
+    FindStringSubmatchIndex a segs = .ok (a.ms.head?.map fun m => Std.locOf (toStd (decoded segs) m)) := by
+  unfold FindStringSubmatchIndex
+  rw [findFirst_eq a he, bind_ok]
+  cases hh : a.ms.head? with
+  | none => rfl
+  | some m =>
+    simp only [Option.map_some]
+    rw [matchIndexes_eq _ hwf m (by rw [decoded_length]; exact head_valid a _ hv m hh)]
+    rfl
+
+theorem FindStringSubmatch_closed (a : Ans) (segs : List (Int × List Nat)) (hwf : WF (decoded segs))
+    (he : a.err = false) (hv : ∀ m ∈ a.ms, m.Valid segs.length) :
+    FindStringSubmatch a segs = .ok (a.ms.head?.map fun m => Std.submatchS (bytesOf segs) (toStd (decoded segs) m)) := by
+  unfold FindStringSubmatch
+  rw [findFirst_eq a he, bind_ok]
+  cases hh : a.ms.head? with
+  | none => rfl
+  | some m =>
+    simp only [Option.map_some]
+    rw [matchStrings_eq segs hwf m (head_valid a _ hv m hh)]
+    rfl
+
+theorem FindSubmatch_closed (a : Ans) (b : Option (List (Int × List Nat))) (hwf : WF (decoded (segsOf b)))
+    (he : a.err = false) (hv : ∀ m ∈ a.ms, m.Valid (segsOf b).length) :
+    FindSubmatch a b = .ok (a.ms.head?.map fun m => Std.submatchB (bytesOfB b) (toStd (decoded (segsOf b)) m)) := by
+  unfold FindSubmatch FindSubmatchIndex
+  rw [FindStringSubmatchIndex_closed a _ hwf he hv, bind_ok]
+  cases hh : a.ms.head? with
+  | none => rfl
+  | some m =>
+    simp only [Option.map_some]
+    rw [submatchSlices_toStd b m]
+    rfl
+
+theorem readRunesR_eq (r : Reader) : must (readRunesR r) = .ok (readRunes r.items) := rfl
+
+theorem FindReaderIndex_closed (a : Ans) (r : Reader) (he : a.err = false) (hv : ∀ m ∈ a.ms, m.Valid r.items.length) :
+    FindReaderIndex a r = .ok (a.ms.head?.map (spanB r.items)) := by
+  unfold FindReaderIndex
+  rw [readRunesR_eq, bind_ok, findFirst_eq a he, bind_ok]
+  cases hh : a.ms.head? with
+  | none => rfl
+  | some m =>
+    simp only [Option.map_some]
+    rw [runeCaptureIndex_eq r.items (m.index, m.len) (head_valid a _ hv m hh).1]
+    rfl
+
+theorem FindReaderSubmatchIndex_closed (a : Ans) (r : Reader) (he : a.err = false)
+    (hv : ∀ m ∈ a.ms, m.Valid r.items.length) :
+    FindReaderSubmatchIndex a r = .ok (a.ms.head?.map fun m => Std.locOf (toStd r.items m)) := by
+  unfold FindReaderSubmatchIndex
+  rw [readRunesR_eq, bind_ok, findFirst_eq a he, bind_ok]
+  cases hh : a.ms.head? with
+  | none => rfl
+  | some m =>
+    simp only [Option.map_some]
+    rw [matchRuneIndexes_eq r.items m (head_valid a _ hv m hh)]
+    rfl
+
+theorem MatchReader_closed (a : Ans) (r : Reader) (he : a.err = false) :
+    MatchReader a r = .ok a.ms.head?.isSome := by
+  unfold MatchReader
+  rw [readRunesR_eq, bind_ok, isMatch_eq a he]
+
+/-! ### the sample of the property file: `a(.)|(é)|y*` on "xa\xffé" (x, a, an invalid byte, a 2-byte rune) -/
+
+/-- the input "xa\xffé" as decoding steps -/
+def exSegs : List (Int × List Nat) := [(120, [120]), (97, [97]), (0xFFFD, [255]), (233, [195, 169])]
+
+/-- regexp2's sequence, rune indices: empty at 0, "a\xff" with group 1 = "\xff", "é" with group 2, empty at 4 -/
+def exAns : Ans :=
+  ⟨false, [⟨0, 0, [none, none]⟩, ⟨1, 2, [some (2, 1), none]⟩, ⟨3, 1, [none, some (3, 1)]⟩, ⟨4, 0, [none, none]⟩], false⟩
+
+/-- the standard library's searches from the byte positions 0, 1, 2, 3, 5 (4 is inside "é") -/
+def exFF : Nat → Option SMatch
+  | 0 => some ⟨0, 0, [none, none]⟩
+  | 1 => some ⟨1, 3, [some (2, 3), none]⟩
+  | 2 => some ⟨2, 2, [none, none]⟩
+  | 3 => some ⟨3, 5, [none, some (3, 5)]⟩
+  | 5 => some ⟨5, 5, [none, none]⟩
+  | _ => none
+
+theorem exSegs_wf : WF (decoded exSegs) := by decide
+
+theorem exAgree : EnginesAgree (decoded exSegs) exAns exFF where
+  noErr := rfl
+  ltr := rfl
+  valid := by decide
+  walk := by
+    refine Walk.step _ _ _ (by decide) ?_ (Walk.step _ _ _ (by decide) ?_ (Walk.step _ _ _ (by decide) ?_
+      (Walk.step _ _ _ (by decide) ?_ (Walk.stop _ (fun h => absurd h (by decide))))))
+    · intro q h1 h2
+      change q ≤ 0 at h2
+      obtain rfl : q = 0 := by omega
+      decide
+    · intro q h1 h2
+      change 1 ≤ q at h1
+      change q ≤ 1 at h2
+      obtain rfl : q = 1 := by omega
+      decide
+    · intro q h1 h2
+      change 3 ≤ q at h1
+      change q ≤ 3 at h2
+      obtain rfl : q = 3 := by omega
+      decide
+    · intro q h1 h2
+      change 5 ≤ q at h1
+      change q ≤ 5 at h2
+      obtain rfl : q = 5 := by omega
+      decide
+
 end RegexVerif.Lemmas.Compat
